@@ -147,10 +147,15 @@ func c07Specs(tier string) []*XSpec {
 	sw := mk(cfgGC3(), 6)
 	sw.Name += "-after-2-records"
 	sw.Prefix = []Op{{K: "set", V: "s", Key: "a"}, {K: "set", V: "s", Key: "a"}, {K: "restart", A: []int{0}}}
+	// three records per file and a hint split capacity of one item: the destination's hint split rotates (and is dumped)
+	// in the middle of a pass, so crash points fall between a split dump and the next one
+	s1 := cfgGC3()
+	s1.SplitCap = 1
+	s1.Name += "-split1"
 	if tier == "quick" {
-		return []*XSpec{mk(cfgGC1(), 3), mk(cfgGC2(), 4)}
+		return []*XSpec{mk(cfgGC1(), 3), mk(cfgGC2(), 4), mk(s1, 5)}
 	}
-	return []*XSpec{mk(cfgGC1(), 4), mk(cfgGC2(), 6), sw, mk(cfgGC3(), 9)}
+	return []*XSpec{mk(cfgGC1(), 4), mk(cfgGC2(), 6), sw, mk(cfgGC3(), 9), mk(s1, 7)}
 }
 
 func C07(job *Job, r *Report) {
